@@ -47,6 +47,22 @@ def target_info(v):
     return None
 
 
+def _is_handle_of(v, obj, cancel_name: str) -> bool:
+    """Is `v` the object itself or its bound cancel method?"""
+    if isinstance(v, ExtObj):
+        return v.key() == obj.key()
+    return isinstance(v, ExtV) and v.name == cancel_name and v.recv is not None and v.recv.key() == obj.key()
+
+
+def published_attrs(analysis: Analysis, flavour: str) -> list:
+    """Names of the attributes of the tasks object in which the scheduler publishes its cancel handle
+    (evaluated, not assumed: `_cancel_save` today)."""
+    summ = (sync_worker if flavour == "sync" else async_worker)(analysis, "json")
+    if flavour == "sync":
+        return sorted({a for r in summ["rows"] for a in r.get("pub_attrs", [])})
+    return summ.get("pub_attrs", [])
+
+
 def in_scope(func: str, *infos) -> bool:
     """Is `func` one of the given functions or nested in one of them?"""
     return any(i is not None and (func == i.qual or func.startswith(i.qual + ".")) for i in infos)
@@ -62,13 +78,15 @@ def sync_worker(analysis: Analysis, ext: str) -> dict:
         kind, s, v = out
         timers = [e for e in s.events if e.kind == "call" and e.name == "threading.Timer.start" and isinstance(e.recv, ExtObj)]
         armed = [e for e in timers if len(e.recv.args) > 1 and target_info(e.recv.args[1]) is cinfo]
-        pub = [e for e in s.events if e.kind == "store" and e.name == "_cancel_save"]
-        pub_ok = any(isinstance(e.args[0], ExtV) and e.args[0].name == "threading.Timer.cancel" and armed and e.args[0].recv is not None and e.args[0].recv.key() == armed[-1].recv.key() for e in pub)
+        # the handle stop() needs: the new timer, or its bound cancel, stored in an attribute of the tasks object
+        pub = [e for e in s.events if e.kind == "store" and isinstance(e.recv, V) and e.recv.key() == tasks.key() and e.args and armed and _is_handle_of(e.args[0], armed[-1].recv, "threading.Timer.cancel")]
+        pub_ok = bool(pub)
+        pub_attrs = sorted({e.name for e in pub})
         failed = [e for e in s.events if e.kind == "catch" and in_scope(e.func, cinfo, fac)]
         save_i = [i for i, e in enumerate(s.events) if e.kind == "enter" and e.name == "persistence:Persistence.save_sensors"]
         arm_i = [i for i, e in enumerate(s.events) if e in armed]
         interval = armed[-1].recv.args[0].value if armed and isinstance(armed[-1].recv.args[0], Const) else None
-        rows.append({"kind": kind, "exc": f"{v.cls.__name__} at {v.site}" if kind == "raise" else None, "armed": len(armed), "pub_ok": pub_ok, "failed": [e.name for e in failed], "save_first": bool(save_i and arm_i and save_i[0] < arm_i[-1]), "interval": interval, "witness": describe_path(out, 24)})
+        rows.append({"kind": kind, "exc": f"{v.cls.__name__} at {v.site}" if kind == "raise" else None, "armed": len(armed), "pub_ok": pub_ok, "failed": [e.name for e in failed], "save_first": bool(save_i and arm_i and save_i[0] < arm_i[-1]), "interval": interval, "pub_attrs": pub_attrs, "witness": describe_path(out, 24)})
     return {"qual": cinfo.qual, "ext": ext, "rows": rows}
 
 
@@ -87,6 +105,7 @@ def async_worker(analysis: Analysis, ext: str) -> dict:
         outs = res0
     spawned = None
     pub = None
+    pub_attrs = []
     st2 = None
     for kind, s, v in outs:
         if kind != "val":
@@ -94,9 +113,13 @@ def async_worker(analysis: Analysis, ext: str) -> dict:
         for e in s.events:
             if e.kind == "spawn" and e.args and isinstance(e.args[0], FutureV):
                 spawned = e.args[0]
+        task_objs = [e.args[0] for e in s.events if e.kind == "store" and e.args and isinstance(e.args[0], ExtObj) and e.args[0].cls == "asyncio.Task"]
         for e in s.events:
-            if e.kind == "store" and e.name == "_cancel_save":
-                pub = e.args[0]
+            if e.kind == "store" and isinstance(e.recv, V) and e.recv.key() == tasks.key() and e.args:
+                val = e.args[0]
+                if in_scope(getattr(target_info(val), "qual", ""), fac, cinfo) or (isinstance(val, (ExtObj, ExtV)) and (getattr(val, "cls", "") == "asyncio.Task" or getattr(val, "name", "") == "asyncio.Task.cancel")):
+                    pub = val
+                    pub_attrs.append(e.name)
         st2 = s
     if spawned is None or st2 is None:
         raise AnalysisError(f"C15: {cinfo.qual} does not create a save task")
@@ -127,8 +150,10 @@ def async_worker(analysis: Analysis, ext: str) -> dict:
 
         txt = unparse(pinfo.node)
         cancel_ok = ".cancel()" in txt and "await" in txt
+    elif pub is not None:
+        cancel_ok = True  # the task itself (or its cancel) is published: what stop() does with it is C14-R2
     analysis.interp_steps += it.steps
-    return {"qual": linfo.qual, "ext": ext, "rows": rows, "published": pinfo is not None, "cancel_ok": cancel_ok, "sched": cinfo.qual}
+    return {"qual": linfo.qual, "ext": ext, "rows": rows, "published": pub is not None, "cancel_ok": cancel_ok, "sched": cinfo.qual, "pub_attrs": sorted(set(pub_attrs))}
 
 
 def run(analysis: Analysis, tier: str) -> RuleResult:
@@ -151,7 +176,7 @@ def run(analysis: Analysis, tier: str) -> RuleResult:
             label = "after a failing save" if r["failed"] else "after a successful save"
             res.add("C15-R1", f"{q}[{summ['ext']}] / re-arms the timer {label}", ok, "mysensors/task.py", f"Timer({r['interval']}, schedule_save).start() on the path" if ok else f"{r['armed']} timers armed on the path", r["witness"] if not ok else None)
             res.add("C15-R1", f"{q}[{summ['ext']}] / the save attempt precedes the re-arm", r["save_first"], "mysensors/task.py", "", r["witness"] if not r["save_first"] else None)
-            res.add("C15-R2", f"{q}[{summ['ext']}] / the new timer's cancel is published to _cancel_save", r["pub_ok"], "mysensors/task.py", "self._cancel_save = scheduler.cancel" if r["pub_ok"] else "stop() cannot cancel the re-armed timer", r["witness"] if not r["pub_ok"] else None)
+            res.add("C15-R2", f"{q}[{summ['ext']}] / the new timer (or its cancel) is published on the tasks object", r["pub_ok"], "mysensors/task.py", f"stored in {r['pub_attrs']}" if r["pub_ok"] else "stop() cannot cancel the re-armed timer", r["witness"] if not r["pub_ok"] else None)
     for summ in common.pmap(analysis, async_worker, list(persist.EXTS)):
         q = summ["qual"]
         rows = summ["rows"]
@@ -182,7 +207,7 @@ def run(analysis: Analysis, tier: str) -> RuleResult:
                     else:
                         res.add("C15-R1", f"{q}[{summ['ext']}] / a failing save returns to the loop head", False, "mysensors/task.py", f"after {x} the path does not continue with the sleep and the next attempt: {seq}", r["witness"])
         res.add("C15-R1", f"{q}[{summ['ext']}] / a failing save returns to the loop head", saw_failed_continue, "mysensors/task.py", "a path with a caught save error continues with the sleep and the next iteration" if saw_failed_continue else "no path on which a save error is caught and the loop continues")
-        res.add("C15-R2", f"{summ['sched']} / the save task's cancel is published to _cancel_save", summ["published"] and summ["cancel_ok"], "mysensors/task.py", "cancel_save cancels and awaits the task")
+        res.add("C15-R2", f"{summ['sched']} / the save task's cancel is published on the tasks object", summ["published"] and summ["cancel_ok"], "mysensors/task.py", f"stored in {summ['pub_attrs']}; it cancels and awaits the task" if summ["published"] and summ["cancel_ok"] else "nothing stop() could cancel the save task with is stored on the tasks object")
     # R3: a failed attempt keeps the state marked unsaved
     from . import c12, c14
 
